@@ -8,3 +8,5 @@ import GSV.Gen.Estimator
 import GSV.Lemmas.Ctl
 import GSV.Props.KernelSummate
 import GSV.Props.KernelKrige
+import GSV.Props.KernelVario
+import GSV.RealInst
